@@ -13,6 +13,7 @@ EXPONENT_LIMIT = 2.2
 
 
 CAP = 5000      # steps per unit of size, any family
+MEM_A, MEM_B = 8 << 20, 20000      # bytes: 8 MiB + 20 kB per input byte (measured on the unchanged tree: parsing allocates below 3 kB per input byte)
 LIN = 2500      # steps per input byte allowed to the byte parsers (measured: BoC ~ 90, TL ~ 40 per byte)
 
 
@@ -47,15 +48,32 @@ class Steps:
     def __exit__(self, *a):
         self.sc.stop()
 
-    def run(self, family, op, s, f, witness, expect='any'):
-        """measure f under the budget limit(s); record; violation if the budget is exhausted"""
+    def run(self, family, op, s, f, witness, expect='any', mem=False):
+        """measure f under the budget limit(s); record; violation if the budget is exhausted.  mem=True: the peak of memory allocated during the call (tracemalloc) is
+        bounded by MEM_A + MEM_B * s as well - work that is one statement long (a list of `count` entries allocated before anything is read) does not show in steps"""
         R = self.R
         lim = limit(s, linear=family.startswith(('boc-', 'tl-')))
         if self.aborts.get(family, 0) >= 3:
             # the family already showed unbounded work three times (violations recorded): do not spend the budget again on every further case
             R.count('skipped_after_repeated_budget_aborts')
             return None
+        if mem:
+            import tracemalloc
+            if not tracemalloc.is_tracing():
+                tracemalloc.start(1)
+            tracemalloc.reset_peak()
+            base = tracemalloc.get_traced_memory()[0]
         steps, out = self.sc.measure(f, lim)
+        if mem:
+            peak = tracemalloc.get_traced_memory()[1] - base
+            R.count('memory_measured_calls')
+            self.table.setdefault(f'{family}/{op}/peak-bytes', []).append((s, peak))
+            # a MemoryError is a refusal like any other; an allocation that SUCCEEDED and is out of all proportion to the input is work driven by a count field
+            if peak > MEM_A + MEM_B * s or (out[0] == 'exc' and isinstance(out[1], MemoryError)):
+                self.aborts[family] = self.aborts.get(family, 0) + 1
+                R.violation(f'unbounded-memory-{op}-{family}', f'{op} on {family} (input of {s} bytes) allocated {peak} bytes at its peak' +
+                            (' and ran into MemoryError' if out[0] == 'exc' and isinstance(out[1], MemoryError) else '') +
+                            f' (bound {MEM_A} + {MEM_B} per byte): memory is driven by a count field, not by the input', dict(witness, size=s, peak_bytes=peak))
         R.counters['oracle_evaluations'] += 1
         R.count('measured_calls')
         R.count(f'calls_{family}')
@@ -283,7 +301,7 @@ def boc_header_product(R, S, rng, quick):
         for filler in (b'', bytes(rng.randrange(1, 40)), rng.randbytes(rng.randrange(1, 60))):
             data = hdr + filler
             S.run('boc-header-product', 'from_boc', len(data), lambda: Cell.from_boc(data),
-                  {'flags': flags, 'size': size, 'off_bytes': off, 'cells': cells, 'roots': roots, 'absent': absent, 'tot_cells_size': tot, 'boc': data})
+                  {'flags': flags, 'size': size, 'off_bytes': off, 'cells': cells, 'roots': roots, 'absent': absent, 'tot_cells_size': tot, 'boc': data}, mem=True)
             R.case(mon.fp('bochp', data))
         R.cover('boc_header_off_bytes', off)
         R.cover('boc_header_size', size)
@@ -295,7 +313,7 @@ def boc_header_product(R, S, rng, quick):
             hdr += num('small', min(off, 8)).to_bytes(min(off, 8), 'big')
             for filler in (b'', rng.randbytes(rng.randrange(1, 60))):
                 data = hdr + filler
-                S.run('boc-header-product', 'from_boc', len(data), lambda: Cell.from_boc(data), {'magic': magic, 'size': size, 'off_bytes': off, 'cells': cells, 'boc': data})
+                S.run('boc-header-product', 'from_boc', len(data), lambda: Cell.from_boc(data), {'magic': magic, 'size': size, 'off_bytes': off, 'cells': cells, 'boc': data}, mem=True)
                 R.case(mon.fp('bochp', data))
 
 
@@ -421,7 +439,7 @@ def dict_part(R, S, rng, quick):
         S.run('dict-canonical', 'HashMap.serialize', cells, lambda: hm.serialize(), W, expect='ok')
         R.case(mon.fp('dict', n))
     # shared subtrees: a dictionary DAG whose unfolded tree has 2^d leaves; size measure = unfolded cells (2^(d+1) - 1)
-    for d in ([2, 6, 10] if quick else [2, 4, 6, 8, 10, 12, 14]):
+    for d in ([2, 6, 10] if quick else [2, 4, 6, 8, 10, 12, 14, 16]):
         leaf = rc.RC('00' + '10101010')            # hml_short n=0, m=0 leaf with an 8-bit value
         c = leaf
         for i in range(d):
